@@ -574,7 +574,26 @@ def instances():
     wp = m.WithProp
     return [1, "s", b"b", 1.5, None, (1, 2), [1], {"a": 1}, {1}, frozenset({1}), ([1],), m.DC(), m.FDC(), m.NT(), m.Plain(), m.Col.a, decimal.Decimal(1),
             datetime.date(2020, 1, 1), uuid.UUID(int=1), pathlib.Path("."), re.compile("a"), wp.__dict__["p"], wp.__dict__["d"], wp.__dict__["m"], wp.attr,
-            wp().m, len, lambda: 1, functools.cached_property(lambda s: 1), m.Desc, int, object(), slice(1), range(3), bytearray(b"x"), types.MappingProxyType({})]
+            wp().m, len, lambda: 1, functools.cached_property(lambda s: 1), m.Desc, int, object(), slice(1), range(3), bytearray(b"x"), types.MappingProxyType({}),
+            # instances of SUBCLASSES of the classes the instance predicates name
+            _AuditedProperty(lambda s: 1), _TtlCachedProperty(lambda s: 1), __import__("abc").abstractproperty(lambda s: 1),
+            collections.OrderedDict(a=1), collections.defaultdict(list), collections.Counter("ab"), _MyStrInst("x"), _MyListInst([1]), True, enum.IntEnum("IE", "a b").a]
+
+
+class _AuditedProperty(property):
+    pass
+
+
+class _TtlCachedProperty(functools.cached_property):
+    pass
+
+
+class _MyStrInst(str):
+    pass
+
+
+class _MyListInst(list):
+    pass
 
 
 def judge_instances(sh):
